@@ -427,6 +427,32 @@ def rule_runs_not_chunks(ctx):
         r.check(skips or loops_vb, "newlines_cleanup_dup/skips-virtual-braces", db.loc(f, f.nodes[c]),
                 "the neighbour `%s` is the next chunk, not the next printed chunk: NEWLINE VBRACE_CLOSE NEWLINE is printed as one run of line "
                 "breaks whose length is the sum of two separately capped counts (nl_max exceeded)" % v)
+    # every adjacent pair is merged: the merge is controlled by the two type tests only
+    for n in [x for x in f.all_nodes() if x["k"] == "call" and x.get("c") == "Chunk::Delete"]:
+        extra = [c for c in _conds(f, n) if c[1] is True and not c[0].endswith("->Is(CT_NEWLINE)") and "IsNotNullChunk" not in c[0]]
+        r.check(not extra, "newlines_cleanup_dup/merges-every-pair", db.loc(f, n),
+                "two neighbouring newline chunks are merged only under %s: pairs that are left alone are capped separately and add up" % extra)
+    # the functions that add a newline look for an existing one past virtual braces (else a second chunk is inserted in
+    # front of the brace, which newlines_cleanup_dup cannot merge)
+    for qn, nav in (("newline_add_after", "GetNextNvb"), ("newline_add_before", "GetPrevNvb")):
+        g = db.fn(qn, file="src/newlines/add.cpp")
+        rdg = ReachingDefs(g, db)
+        found = False
+        for b, blk in g.blocks.items():
+            t = blk.get("term")
+            c = t.get("lc", t.get("c")) if t else None
+            m = re.match(r"^(\w+)->IsNewline\(\)$", expr_str(g, c)) if c is not None else None
+            if not m:
+                continue
+            ref = [x for x in g.nodes.values() if x["k"] == "ref" and x.get("n") == m.group(1) and g.nblock.get(x["i"]) == b]
+            if not ref:
+                continue
+            found = True
+            defs = [expr_str(g, rdg.rhs_of(i)) for i in rdg.at(c, var_id(ref[0])) if rdg.rhs_of(i) is not None]
+            r.check(bool(defs) and all(nav in d for d in defs), "%s/looks-past-virtual-braces" % qn, db.loc(g, blk["term"]["l"]),
+                    "%s() tests `%s` = %s for an existing newline; without %s() a newline behind a virtual brace is not seen and a second one "
+                    "is inserted" % (qn, m.group(1), defs, nav))
+        r.require(found, "%s: the test for an existing newline was not found" % qn)
     r.floor(1)
 
 
